@@ -20,11 +20,13 @@
  *   case k
  *   tp <id> chain|fork|indep <n> <delay>     create a PTG taskpool (ids dense from 0 per case)
  *   cb <id>                                  give taskpool/compound <id> a test-owned completion callback
+ *   cbdelay <id> <us>                        that callback spins <us> between its begin (`cb`) and end (`cbe`) stamps
  *   cbadd <id> <id2>                         that callback adds taskpool <id2> to the context
  *   addat <id> <task> <id2>                  the body of task <task> of <id> adds taskpool <id2>
  *   compound <cid> <m1> ... <mn>             cid = parsec_compose(...(m1, m2)..., mn)   (n >= 2)
  *   compose1 <id>                            parsec_compose(tp, NULL) and (NULL, tp) must return tp
- *   start | wait | test | active | add <id> | tpwait <id> | stall <us> | stalladd <us> | sleep <us>
+ *   start | wait | test | active | add <id> | tpwait <id> | tpwaitlate <id> <us> | stall <us> | stalladd <us> | sleep <us>
+ *       tpwaitlate: call parsec_taskpool_wait(<id>) as soon as the completion callback of <id> has begun (at most <us> later)
  *       stall: the next RMW of active_taskpools by a worker that reads 0 first sleeps <us> (a preemption at that point)
  *       stalladd: every test-issued add_taskpool sleeps <us> right before its first RMW of active_taskpools
  *   endcase
@@ -65,7 +67,8 @@ static int32_t nev = 0;
 
 #define MAXTP 128
 typedef struct {
-    int used, kind /*0 chain 1 fork 2 indep 3 compound*/, n, delay, has_cb, added;
+    int used, kind /*0 chain 1 fork 2 indep 3 compound*/, n, delay, has_cb, added, cbdelay;
+    volatile int cb_state;   /* 0 = callback not begun, 1 = running, 2 = ended */
     parsec_taskpool_t *tp;
     int ncbadd, cbadd[8];
     int naddat; struct { int task, id; } addat[16];
@@ -79,7 +82,8 @@ static volatile time_t case_t0 = 0;
 static volatile int case_no = -1;
 static volatile int32_t stall_us = 0, stalladd_us = 0;
 static __thread int pend_add = 0;   /* the calling thread is inside a test-issued add_taskpool, before its first counter update */
-static long n_tasks = 0, n_adds_task = 0, n_adds_cb = 0, n_stalls = 0;
+static int dbg = 0;
+static long n_tasks = 0, n_adds_task = 0, n_adds_cb = 0, n_stalls = 0, n_late = 0;
 
 static inline int me(void)
 {
@@ -130,6 +134,9 @@ static void ycb(int kind, volatile void *addr)
         }
         return;
     }
+    if( dbg ) for( int i = 0; i < MAXTP; i++ )
+        if( T[i].used && 3 != T[i].kind && T[i].tp && addr == (volatile void*)&T[i].tp->nb_pending_actions )
+            fprintf(stderr, "rmw nb_pa of %d by thread %d, value before %d, nb_tasks %d\n", i, me(), T[i].tp->nb_pending_actions, T[i].tp->nb_tasks);
     for( int i = 0; i < MAXTP; i++ ) {
         if( T[i].used && 3 == T[i].kind && addr == (volatile void*)&T[i].tp->nb_pending_actions ) {
             ev(EV_MCB, me(), i, 0);
@@ -178,9 +185,12 @@ static int on_complete(parsec_taskpool_t *tp, void *data)
     int t = me();
     (void)tp;
     ev(EV_CB, t, id, 0);
+    T[id].cb_state = 1;
     for( int i = 0; i < T[id].ncbadd; i++ ) { __atomic_fetch_add(&n_adds_cb, 1, __ATOMIC_RELAXED); do_add(t, T[id].cbadd[i]); }
-    if( T[id].delay ) spin_us(T[id].delay);     /* a callback that takes some time */
+    if( T[id].cbdelay ) spin_us(T[id].cbdelay);     /* a callback that takes some time */
+    else if( T[id].delay ) spin_us(T[id].delay);
     ev(EV_CBE, t, id, 0);
+    T[id].cb_state = 2;
     return 0;
 }
 
@@ -218,6 +228,7 @@ int main(int argc, char **argv)
     char line[4096];
     MPI_Init_thread(&argc, &argv, MPI_THREAD_SERIALIZED, &prov);
     K = argc > 1 ? atoi(argv[1]) : 2;
+    dbg = NULL != getenv("CTX_DEBUG");
     wd_limit = argc > 2 ? atoi(argv[2]) : 30;
     evs = (ev_t*)malloc(sizeof(ev_t) * MAXEV);
     ctx = parsec_init(K, NULL, NULL);
@@ -247,6 +258,8 @@ int main(int argc, char **argv)
         } else if( !strcmp(w[0], "cb") && nw == 2 ) {
             int id = atoi(w[1]); T[id].has_cb = 1;
             T[id].tp->on_complete = on_complete; T[id].tp->on_complete_data = (void*)(intptr_t)id;
+        } else if( !strcmp(w[0], "cbdelay") && nw == 3 ) {
+            T[atoi(w[1])].cbdelay = atoi(w[2]);
         } else if( !strcmp(w[0], "cbadd") && nw == 3 ) {
             tpd_t *d = &T[atoi(w[1])]; d->cbadd[d->ncbadd++] = atoi(w[2]);
         } else if( !strcmp(w[0], "addat") && nw == 4 ) {
@@ -280,6 +293,17 @@ int main(int argc, char **argv)
         } else if( !strcmp(w[0], "tpwait") && nw == 2 ) {
             int id = atoi(w[1]);
             ev(EV_TPWAITCALL, 0, id, 0); int r = parsec_taskpool_wait(T[id].tp); ev(EV_TPWAITRET, 0, id, r < 0 ? -1 : 0);
+        } else if( !strcmp(w[0], "tpwaitlate") && nw == 3 ) {
+            /* enter parsec_taskpool_wait LATE: once the completion callback of <id> has begun on some worker (or after <us>) */
+            int id = atoi(w[1]); long lim = (K > 1) ? atol(w[2]) : 0;   /* without workers nothing runs while the master is outside */
+            struct timespec a, b; clock_gettime(CLOCK_MONOTONIC, &a);
+            while( 0 == T[id].cb_state ) {
+                clock_gettime(CLOCK_MONOTONIC, &b);
+                if( (b.tv_sec - a.tv_sec) * 1000000L + (b.tv_nsec - a.tv_nsec) / 1000 > lim ) break;
+            }
+            if( 1 == T[id].cb_state ) __atomic_fetch_add(&n_late, 1, __ATOMIC_RELAXED);
+            if( getenv("CTX_DEBUG") ) fprintf(stderr, "tpwaitlate %d: cb_state=%d nb_tasks=%d nb_pa=%d monitor=%p\n", id, T[id].cb_state, T[id].tp->nb_tasks, T[id].tp->nb_pending_actions, T[id].tp->tdm.monitor);
+            ev(EV_TPWAITCALL, 0, id, 0); int r = parsec_taskpool_wait(T[id].tp); ev(EV_TPWAITRET, 0, id, r < 0 ? -1 : 0);
         } else if( !strcmp(w[0], "stall") && nw == 2 ) {
             stall_us = atoi(w[1]);
         } else if( !strcmp(w[0], "stalladd") && nw == 2 ) {
@@ -294,7 +318,7 @@ int main(int argc, char **argv)
         fflush(stdout);
     }
     end_case();
-    pv_stat("tasks", n_tasks); pv_stat("adds_from_tasks", n_adds_task); pv_stat("adds_from_callbacks", n_adds_cb); pv_stat("stalls", n_stalls);
+    pv_stat("tasks", n_tasks); pv_stat("adds_from_tasks", n_adds_task); pv_stat("adds_from_callbacks", n_adds_cb); pv_stat("stalls", n_stalls); pv_stat("tpwait_entered_during_callback", n_late);
     fflush(stdout);
     parsec_verif_yield_cb = NULL;
     case_t0 = 0;
